@@ -164,8 +164,9 @@ def parseTags (s : String) : Option Tags := (splitStr s '/').mapM natList
 
 def showNats (l : List Nat) : String := if l.isEmpty then "-" else ",".intercalate (l.map toString)
 
+/-- which CIP error an invalid inner request gets is not this property's subject: `nz` -/
 def showResult (r : OpResult) : String :=
-  toString r.status ++ ":" ++ (if r.star then "*" else showNats r.data)
+  if r.status = 0 then "0:" ++ (if r.star then "*" else showNats r.data) else "nz:-"
 
 def showPayload : Option (List OpResult) → String
   | none => "-"
